@@ -332,18 +332,31 @@ pub fn run_random(rec: &mut Rec, seed: u64, run: u64, nops: usize) {
                 pre = json!({"share": opt_share(&p, sh)});
                 let wallet_before = p.w.balance(&who, &p.asset);
                 dpre = p.w.digest();
+                // one call in ten uses the direct Withdraw message (the entry point of token-factory LP denoms) with a coin of
+                // the vault's own asset attached instead of handing in LP shares: with a cw20 LP token it must be refused
+                let direct = !by_adv && r.gen_range(0..10) == 0;
                 rs = if by_adv {
                     let u = p.users[ui].clone();
                     p.w.exec(&u, &p.adv.clone(), &AdvExecute::Run { script: vec![Atom::Withdraw { x: Uint128::new(sh) }], target: p.vault.to_string() }, &[])
+                } else if direct {
+                    let funds: Vec<cosmwasm_std::Coin> = match &p.asset { A::Native(d) => vec![coin(sh.min(p.w.balance(&who, &p.asset)).max(1), d.clone())], _ => vec![] };
+                    p.w.exec(&who, &p.vault.clone(), &ExecuteMsg::Withdraw {}, &funds)
                 } else {
                     p.w.cw20_send(&who, &p.lp.clone(), &p.vault.clone(), sh, &Cw20HookMsg::Withdraw {})
                 };
                 dpost = p.w.digest();
                 let paid = p.w.balance(&who, &p.asset).saturating_sub(wallet_before);
+                if direct {
+                    name = "wdirect";
+                    actor = USERS[ui].into();
+                    args = json!({"shares": s(sh)});
+                    out = json!({"paid": s(paid), "attr": rs.any_attr("asset_amount").unwrap_or("none".into())});
+                } else {
                 name = "withdraw";
                 actor = if by_adv { "adv".into() } else { USERS[ui].into() };
                 args = json!({"shares": s(sh)});
                 out = json!({"paid": s(paid), "attr": rs.any_attr("asset_amount").unwrap_or("none".into())});
+                }
             }
             34..=39 => {
                 last_minted = None;
